@@ -4,9 +4,9 @@ use vcommon::sched::run_one;
 
 fn main() {
     if std::env::var("PROBE_LOG").is_ok() { tracing_subscriber::fmt().with_max_level(tracing::Level::TRACE).without_time().with_target(false).init(); }
-    let script = sequential(&[vec![link("v"), cmd("v", "1"), Step::Wait(6), act(&[]), Step::Wait(6), cmd("v", "2")]]);
+    let script = sequential(&[vec![link("v"), act(&["@laterv{d:6,v:1}"]), Step::Wait(6), Step::Wait(5), act(&[]), Step::Wait(6), Step::Wait(6)]]);
     let mut cfg = Cfg::basic(script, 1);
-    cfg.store = StoreMode::Recording; cfg.restart = true;
+    cfg.ticks = 2; cfg.final_stop = false;
     if let Ok(k) = std::env::var("CRASH") { cfg.crash_at = Some(k.parse().unwrap()); }
     let args: Vec<String> = std::env::args().collect();
     if args.len() > 1 { cfg.cap = args[1].parse().unwrap(); }
